@@ -3,7 +3,7 @@
    unconditional _AuthMiddleware with nothing that must follow authentication in front of it.  Both files are
    rewritten from the working tree on every run.  The C20 theorems are restated over the regenerated terms. *)
 From Coq Require Import List NArith Bool.
-From VGI Require Import M_Exempt L_Exempt G_Exempt G_ExemptMw.
+From VGI Require Import M_Exempt L_Exempt G_Exempt G_ExemptMw G_ExemptChain.
 Import ListNotations.
 Open Scope N_scope.
 
@@ -55,4 +55,24 @@ Proof.
   intros e stops accepts prefix meth path Ha Hin Hno. apply exempt_iff.
   change (exempt e prefix meth path) with (exempt_with exempt_pexp e prefix meth path). rewrite <- exempt_tie.
   exact (bypass_only_if_exempt_gen gen_exempt_pexp gen_middleware_list e stops accepts prefix meth path Ha Hin Hno).
+Qed.
+
+(* ---- the authenticator composed while the PKCE flow is active (gen/G_ExemptChain.v) ---- *)
+Lemma members_tie : gen_members_pkce = authenticator_members true.
+Proof. reflexivity. Qed.
+
+(* over the regenerated predicate, middleware list and chain members: outside the four classes a request is dispatched
+   only if the operator callback, asked during this request about one of this request's own presentations, accepted *)
+Theorem C20_source_dispatch_needs_fresh_verdict :
+  forall (R : Type) e stops (cb : callback R) c rest prefix meth path,
+  e AAuth = true -> ~ allowed e prefix meth path ->
+  In EvDispatch (handle_with gen_exempt_pexp gen_middleware_list e stops
+                   (existsb (fun p => is_accept (snd p)) (chain_calls cb c rest gen_members_pkce)) prefix meth path) ->
+  exists a, In a (member_presentations gen_members_pkce c) /\ cb a rest = VAccept.
+Proof.
+  intros R e stops cb c rest prefix meth path Ha Hna Hin.
+  destruct (C20_source_auth_precedes_dispatch e stops _ prefix meth path Ha Hna Hin) as [Hacc _].
+  apply existsb_exists in Hacc. destruct Hacc as ([a v] & Hin' & Hv). cbn [snd] in Hv.
+  destruct (chain_calls_sound R cb c rest _ a v Hin') as [Hp Hveq].
+  exists a. split; [exact Hp |]. rewrite <- Hveq. destruct v; try discriminate Hv. reflexivity.
 Qed.
